@@ -24,6 +24,9 @@ CHECKS = {
  "C08": ("readiness automaton per node (Taps on every node of single views and chains) + documented warm-up table + Script children that deliver nothing; dev and release profiles, three scalars",
          "Held on the executions explored: every view x N grid x degenerate input classes, chains, long runs (1e4 quick / 1e6 thorough updates). 'For ever' is restated as no relapse and no non-finite value within those run lengths; no finite run decides the unbounded claim.",
          "a node is only judged while its own inputs stayed finite, in domain and below 2^40; a panic of the code under test ends the trial (C15 reports it)"),
+ "C11": ("reference-model monitor: batch re-evaluation of the difference equations (closed-form coefficients from the statement) from the complete input history, compared after every update at f64 (long streams) and at the exact scalar (short streams; hold branches exact), tolerance 1e-4 of natural scale",
+         "Held on the executions explored: nine views x N from each minimum to 64 + {200, 1000} x gamma / smoother-length / MA grids x 10 input classes.",
+         "crate conventions as named in the statement; 1.414 pi == 4.4422; f64 ratio steps with the reference denominator in rounding noise are skipped (counted)"),
  "C14": ("pointwise oracle over Script children (outputs dictated), bit-exact comparison after every update; two-history statelessness relation",
          "Held on the executions explored (all nine combinators x f64/f32/exact rational x seeded script pairs incl. zeros, -0, clip ties, denormals, None prefixes).",
          "children never relapse to None; libm tanh of the harness build is the one the crate reaches"),
